@@ -25,7 +25,7 @@ REPLACE_FORMS = [f for f in S.CATALOGUE if f["mode"] == "replace" and not f["id"
 
 def cases(ctx):
     rng = ctx.rng
-    for _ in range(ctx.per_shard(ctx.pick(2500, 60000))):
+    for _ in range(ctx.per_shard(ctx.pick(2500, 240000))):
         nlines = rng.choice([2, 3, 5, 10, 25, 60, 200] if not ctx.quick else [2, 3, 5, 10, 25, 60])
         nid = rng.choice([1, 2, 3, 4, 5, 9, 12, 20]) if nlines >= 10 else rng.randint(1, 5)
         yield {"kind": "doc", "dseed": rng.getrandbits(32), "nlines": nlines, "nid": nid,
